@@ -4,6 +4,7 @@ use super::{
 };
 use crate::model::{
     helpers::{write_check_restrictions_footer, write_check_restrictions_header},
+    field::OtherRustType,
     structures::restrictions::Restrictions,
 };
 
@@ -195,7 +196,22 @@ where
     }
     writeln!(writer, "pub struct {rust_name} {{")?;
     for field in fields {
-        field.write_xml(writer)?;
+        // a member of the struct's own type (a tree node and its parent, a linked entry and the next one) needs an
+        // indirection, or the struct has infinite size; a repeated member has one in its Vec already
+        let module = target_namespace.as_ref().map(|ns| ns.rust_mod_name.as_str());
+        match &field.rust_type {
+            RustFieldType::Other(other)
+                if !field.is_vec && other.name == rust_name && (other.module.is_none() || other.module.as_deref() == module) =>
+            {
+                let mut shared = field.clone();
+                shared.rust_type = RustFieldType::Other(OtherRustType {
+                    name: format!("MultiRef<{}>", field.rust_type),
+                    module: Some("multi_ref".to_string()),
+                });
+                shared.write_xml(writer)?;
+            }
+            _ => field.write_xml(writer)?,
+        }
     }
     writeln!(writer, "}}")?;
 
